@@ -39,6 +39,7 @@ MIN_REACH = {
     "lines_matched": {"quick": 1500, "thorough": 20000},
     "style_pairs_compared": {"quick": 1200, "thorough": 15000},
     "aggregates_compared": {"quick": 100, "thorough": 1500},
+    "aggregate_figures_with_x_as_a_data_variable": {"quick": 15, "thorough": 250},
     "histograms_compared": {"quick": 120, "thorough": 1200},
     "heatmap_cells_compared": {"quick": 300, "thorough": 5000},
     "slices_holding_infinite_values": {"quick": 30, "thorough": 500},
@@ -97,7 +98,7 @@ def cases(ctx):
         c["bins"] = rng.choice([None, 4, 7, "edges"])
         c["density"] = rng.random() < 0.6
         c["palette"] = rng.choice(["viridis", "magma", None])
-        c["xvar"] = mode == "lines" and rng.random() < 0.3
+        c["xvar"] = (mode == "lines" and rng.random() < 0.3) or (mode == "aggregate" and c["dseed"] % 3 == 1)
         yield c
 
 
@@ -292,7 +293,12 @@ def run_case(ctx, case):
                 kw.update(aggregate=agg, aggregate_method=case["agg_method"], aggregate_err_range=case["agg_range"])
                 if case["err_style"]:
                     kw["err_style"] = case["err_style"]
-                fig, axs = xyzpy.infiniplot(ds, "x", "y", show_and_close=False, **kw)
+                if case.get("xvar"):
+                    # the aggregated sweep against an x that is itself a (measured, aggregated alike) data variable
+                    fig, axs = xyzpy.infiniplot(ds, "tx", "y", xlink="x", show_and_close=False, **kw)
+                    ctx.count("aggregate_figures_with_x_as_a_data_variable")
+                else:
+                    fig, axs = xyzpy.infiniplot(ds, "x", "y", show_and_close=False, **kw)
             elif mode == "hist":
                 if case["bins"] == "edges":
                     kw["bins"] = [-6, -2, -1, -0.5, 0, 0.5, 1, 2, 6]
@@ -401,7 +407,10 @@ def run_case(ctx, case):
                             with warnings.catch_warnings():
                                 warnings.simplefilter("ignore")
                                 yv = {"median": np.nanmedian, "mean": np.nanmean, "max": np.nanmax}[case["agg_method"]](arr, axis=0)
-                        xv = xs
+                                xv = xs
+                                if "tx" in work:
+                                    arrx = np.asarray(sub["tx"].transpose(*(agg_dims + ["x"])).values, dtype=float).reshape(-1, len(xs))
+                                    xv = {"median": np.nanmedian, "mean": np.nanmean, "max": np.nanmax}[case["agg_method"]](arrx, axis=0)
                     else:
                         yv = np.asarray(sub["y"].values, dtype=float)
                         xv = xs
@@ -435,7 +444,8 @@ def run_case(ctx, case):
                 for k, l in got.items():
                     loc, xv, yv, sub = exp[k]
                     ctx.count("lines_matched")
-                    if arr_key(l.get_xdata()) != arr_key(xv):
+                    xapprox = mode == "aggregate" and "tx" in work        # (an aggregated x: summation order may differ in the last bits)
+                    if arr_key(l.get_xdata(), xapprox) != arr_key(xv, xapprox):
                         bad.append("line for %s has x data %s, expected %s" % (loc, np.asarray(l.get_xdata()).tolist()[:4], np.asarray(xv).tolist()[:4]))
                     st = style_of(l)
                     for p, d in mapping.items():
@@ -616,8 +626,8 @@ def _judge_spread(ctx, ax, exp, case, kw, agg_dims, xs, bad):
                 lo = np.nanquantile(arr, 0.5 - r / 2, axis=0)
                 hi = np.nanquantile(arr, 0.5 + r / 2, axis=0)
         ctx.count("aggregates_compared")
-        for xi, l_, h_, c_ in zip(xs, lo, hi, yv):
-            if not (np.isfinite(l_) and np.isfinite(h_) and np.isfinite(c_)):
+        for xi, l_, h_, c_ in zip(xv, lo, hi, yv):
+            if not (np.isfinite(l_) and np.isfinite(h_) and np.isfinite(c_) and np.isfinite(xi)):
                 continue
             if style == "bars":
                 l_, h_ = c_ - abs(c_ - l_), c_ + abs(h_ - c_)
